@@ -650,7 +650,7 @@ MUST_REACH = [
 
 def _e3_items(ctx):
     no, ng = ctx.scale((32, 16), (300, 150))
-    nf, nd = ctx.scale((16, 12), (200, 150))
+    nf, nd = ctx.scale((16, 12), (80, 100))
     shifts = ctx.scale([0], [0, 100, 200])
     items = []
     for sh in shifts:
